@@ -51,6 +51,21 @@ def nt():
     return contextlib.nullcontext()
 
 
+def rt():
+    """`with rt():` = crosshair ResumedTracing inside an `nt()` block (no-op when not under CrossHair)."""
+    if TRACING:
+        from crosshair.tracers import ResumedTracing
+        return ResumedTracing()
+    return contextlib.nullcontext()
+
+
+def sym_eq(a, b):
+    """Decide `a == b` where either side may be symbolic, from inside an untraced region: the comparison is a solver
+    decision (fork), the result a plain bool."""
+    with rt():
+        return bool(a == b)
+
+
 def conc(x):
     """Concretise a value (finite-domain choice: CrossHair turns it into a decision node whose
     'other value' branch is explored too, so exhaustion still means every value was covered)."""
